@@ -109,7 +109,8 @@ impl Connect {
             Protocol::V5 => buffer.put_u8(0x05),
         }
 
-        let flags_index = 1 + count + 2 + 4 + 1;
+        // the flags byte comes next, wherever in the buffer this packet starts
+        let flags_index = buffer.len();
 
         let mut connect_flags = 0;
         if self.clean_session {
